@@ -27,6 +27,8 @@ impl RandomPolicy {
     // or the store is empty.
     fn evict_while_over_limit(&self) {
         let mut small_rng = SmallRng::from_entropy();
+        #[cfg(memcrs_verif)]
+        crate::verif::yield_point("usage_load");
         while self.memory_usage.load(atomic::Ordering::Acquire) > self.memory_limit {
             debug!("Memory limit: {}", self.memory_limit);
 
@@ -55,6 +57,8 @@ impl RandomPolicy {
                 }
                 None => {}
             });
+            #[cfg(memcrs_verif)]
+            crate::verif::yield_point("usage_load");
         }
     }
 
@@ -65,6 +69,8 @@ impl RandomPolicy {
     }
 
     fn decr_mem_usage(&self, value: u64) -> u64 {
+        #[cfg(memcrs_verif)]
+        crate::verif::yield_point("usage_sub");
         self.memory_usage
             .fetch_sub(value, atomic::Ordering::Release)
     }
@@ -101,6 +107,8 @@ impl Cache for RandomPolicy {
         self.evict_while_over_limit();
         // accounted before it is stored and corrected by what the store reports, so
         // that under concurrency the usage never runs below what is stored
+        #[cfg(memcrs_verif)]
+        crate::verif::yield_point("usage_add");
         self.memory_usage.fetch_add(len, atomic::Ordering::Release);
         let result = self.store.set(key, record);
         match &result {
